@@ -4,4 +4,7 @@ open OrxPar
 #print axioms C14_pinned_defect
 #print axioms C14_pinned_defect_witness
 #print axioms C14_source_after_panic
-#print axioms C14_outcome_is_panic
+#print axioms C14_evaluated_panics
+#print axioms C14_propagates
+#print axioms C14_no_spurious_panic
+#print axioms C14_swallowing_join_returns_a_value
